@@ -85,6 +85,7 @@ def build(case):
     machine = Machine(case["w"], case["h"], chip_resources=res,
                       chip_resource_exceptions=exc,
                       dead_chips=set(map(tuple, case.get("dead", []))))
+    V = vertex_object(case)
     vr = {}
     for name, need in case["vertices"]:
         d = {}
@@ -92,18 +93,36 @@ def build(case):
             d[Cores] = need
         if name in case.get("needs2", {}):
             d["S"] = case["needs2"][name]
-        vr[name] = d
-    nets = [Net(s, list(t), w) for s, t, w in case.get("nets", [])]
+        vr[V(name)] = d
+    nets = [Net(V(s), [V(x) for x in t], w)
+            for s, t, w in case.get("nets", [])]
     cons = []
     for a, b, loc in case.get("reservations", []):
         cons.append(ReserveResourceConstraint(Cores, slice(a, b),
                                               None if loc is None
                                               else tuple(loc)))
     for v, chip in case.get("locations", []):
-        cons.append(LocationConstraint(v, tuple(chip)))
+        cons.append(LocationConstraint(V(v), tuple(chip)))
     for grp in case.get("same_chip", []):
-        cons.append(SameChipConstraint(list(grp)))
+        cons.append(SameChipConstraint([V(x) for x in grp]))
     return vr, nets, machine, cons
+
+
+def vertex_object(case):
+    """Vertices are arbitrary hashable objects: plain names, or (vkind)
+    tuples such as (population, index), the empty tuple's neighbours and
+    strings that look like format specifications."""
+    kind = case.get("vkind")
+    names = [nm for nm, _ in case["vertices"]]
+    if kind is None:
+        return lambda nm: nm
+    if kind == "tuple":
+        objs = {nm: ("pop", j) for j, nm in enumerate(names)}
+    elif kind == "tuple3":
+        objs = {nm: ("pop", j, "%s {} %d") for j, nm in enumerate(names)}
+    else:
+        objs = {nm: "{%d} %%s %%d {}" % j + nm for j, nm in enumerate(names)}
+    return lambda nm: objs[nm]
 
 
 def snapshot(vr, nets, machine, cons):
@@ -154,7 +173,8 @@ def call_placer(placer, vr, nets, machine, cons, rnd, tier, case):
     if placer == "sequential":
         kw = {}
         if case.get("vertex_order") is not None:
-            kw["vertex_order"] = list(case["vertex_order"])
+            V = vertex_object(case)
+            kw["vertex_order"] = [V(v) for v in case["vertex_order"]]
         if case.get("chip_order") is not None:
             kw["chip_order"] = [tuple(c) for c in case["chip_order"]]
         return sequential.place(vr, nets, machine, cons, **kw)
@@ -352,6 +372,10 @@ def run_case(case, acc, tier, bound):
                                  describe(case)), size=csize(case))
             return
         acc.outcome("placed")
+        if case.get("vkind"):
+            V = vertex_object(case)
+            back = {V(nm): nm for nm, _ in case["vertices"]}
+            pl = {back.get(k, k): v for k, v in pl.items()}
         msg = judge_placement(case, pl)
         if msg:
             acc.violation(dict(kind="infeasible", placer=case["placer"]), c,
@@ -470,6 +494,12 @@ def fam_unit(params, tier, acc):
                         b = bound if (n <= 3 and cfg["w"] * cfg["h"] <= 3) \
                             else 0
                         run_case(case, acc, tier, b)
+                        if pin is None and netk == "chain":
+                            # the same problem with vertices that are
+                            # tuples / look like format strings
+                            run_case(dict(case, vkind=("tuple", "tuple3",
+                                                       "fmt")[n % 3]),
+                                     acc, tier, 0)
         if i % 20 == 0:
             acc.sample(dict(fam="unit", placer=placer, machine=cfg,
                             total_free=total))
